@@ -77,7 +77,7 @@ def Load__V(self, vi, ii, io, phase, phase_conf, pstate):
 
 def Load__P(self, vi, vo, ii, io, ta, phase, phase_conf, pstate):
     if abs(vi) == 0.0 or _get_lopt(pstate, "off", 0, False):
-        return 0.0, 0.0, ANY, 0.0, ANY
+        return 0.0, 0.0, ANY, 0.0, ta
     c = abs(vi) * ii
     if self._params["loss"]:
         return 0.0, c, ANY, self._params["rt"] * c, ta + self._params["rt"] * c
@@ -102,10 +102,10 @@ def RLoss__V(self, vi, ii, io, phase, phase_conf, pstate):
 
 def RLoss__P(self, vi, vo, ii, io, ta, phase, phase_conf, pstate):
     if abs(vi) == 0.0 or _get_lopt(pstate, "off", 0, False):
-        return 0.0, 0.0, ANY, 0.0, ANY
+        return 0.0, 0.0, ANY, 0.0, ta
     d = self._params["rs"] * io
     if not (abs(vi) - d > 0.0):
-        return 0.0, 0.0, ANY, 0.0, ANY
+        return 0.0, 0.0, ANY, 0.0, ta
     return abs(vi) * ii, d * io, ANY, self._params["rt"] * d * io, ta + self._params["rt"] * d * io
 
 
@@ -123,10 +123,10 @@ def VLoss__V(self, vi, ii, io, phase, phase_conf, pstate):
 
 def VLoss__P(self, vi, vo, ii, io, ta, phase, phase_conf, pstate):
     if abs(vi) == 0.0 or _get_lopt(pstate, "off", 0, False):
-        return 0.0, 0.0, ANY, 0.0, ANY
+        return 0.0, 0.0, ANY, 0.0, ta
     d = self._ipr._interp(io, abs(vi))
     if not (abs(vi) - d > 0.0):
-        return 0.0, 0.0, ANY, 0.0, ANY
+        return 0.0, 0.0, ANY, 0.0, ta
     return abs(vi) * ii, d * io, ANY, self._params["rt"] * d * io, ta + self._params["rt"] * d * io
 
 
@@ -153,7 +153,7 @@ def Converter__V(self, vi, ii, io, phase, phase_conf, pstate):
 
 def Converter__P(self, vi, vo, ii, io, ta, phase, phase_conf, pstate):
     if abs(vi) == 0.0 or _get_lopt(pstate, "off", 0, False):
-        return 0.0, 0.0, ANY, 0.0, ANY
+        return 0.0, 0.0, ANY, 0.0, ta
     if phase_conf and phase not in phase_conf:
         s = self._params["iis"] * abs(vi)
         return s, s, ANY, self._params["rt"] * s, ta + self._params["rt"] * s
@@ -186,7 +186,7 @@ def LinReg__V(self, vi, ii, io, phase, phase_conf, pstate):
 
 def LinReg__P(self, vi, vo, ii, io, ta, phase, phase_conf, pstate):
     if abs(vi) == 0.0 or _get_lopt(pstate, "off", 0, False):
-        return 0.0, 0.0, ANY, 0.0, ANY
+        return 0.0, 0.0, ANY, 0.0, ta
     if phase_conf and phase not in phase_conf:
         s = self._params["iis"] * abs(vi)
         return s, s, ANY, self._params["rt"] * s, ta + self._params["rt"] * s
@@ -212,7 +212,7 @@ def PSwitch__V(self, vi, ii, io, phase, phase_conf, pstate):
 
 def PSwitch__P(self, vi, vo, ii, io, ta, phase, phase_conf, pstate):
     if abs(vi) == 0.0 or _get_lopt(pstate, "off", 0, False):
-        return 0.0, 0.0, ANY, 0.0, ANY
+        return 0.0, 0.0, ANY, 0.0, ta
     if phase_conf and phase not in phase_conf:
         s = self._params["iis"] * abs(vi)
         return s, s, ANY, self._params["rt"] * s, ta + self._params["rt"] * s
@@ -276,11 +276,11 @@ def Rectifier__V(self, vi, ii, io, phase, phase_conf, pstate):
 
 def Rectifier__P(self, vi, vo, ii, io, ta, phase, phase_conf, pstate):
     if abs(vi) == 0.0 or _get_lopt(pstate, "off", 0, False):
-        return 0.0, 0.0, ANY, 0.0, ANY
+        return 0.0, 0.0, ANY, 0.0, ta
     if self._params["type"] == "diode":
         d = 2 * self._ipr._interp(io, abs(vi))
         if not (abs(vi) - d > 0.0):
-            return 0.0, 0.0, ANY, 0.0, ANY
+            return 0.0, 0.0, ANY, 0.0, ta
         l = d * io
     elif io == 0.0:
         l = self._params["iq"] * abs(vi)
